@@ -12,7 +12,7 @@ import tarfile
 from hypothesis import strategies as st
 
 from hv.core import track as core_track
-from hv.core import Outcome, lib, lib_delegating
+from hv.core import DEBUG_LOG_ENV, Outcome, lib, lib_delegating
 from hv.sparse import pattern
 
 ID = "C20"
@@ -53,6 +53,15 @@ def budget(tier):
     return 14000 if tier == "quick" else 50000
 
 
+VARIANT_DISTINCT_SEEDS = True
+
+
+def variants(tier):
+    # listing and extraction must not depend on the package's logging switches
+    return [{"name": "default", "env": {}, "shards": 12},
+            {"name": "debug-logging", "env": DEBUG_LOG_ENV, "args": {"budget_scale": 0.2}, "shards": 4}]
+
+
 def content(m) -> bytes:
     """The stored bytes of a regular member."""
     n = m.get("nested")
@@ -68,8 +77,8 @@ def member(draw, idx):
     kind = draw(st.sampled_from(["visor-file", "visor-file", "visor-file", "visor-dir", "visor-empty", "std-file", "std-dir", "std-symlink", "std-empty"]))
     depth = draw(st.integers(1, 3))
     name = "/".join(draw(st.sampled_from(NAME_PARTS)) for _ in range(depth)) + f"_{idx}"
-    longname = draw(st.sampled_from([None, None, None, "gnu", "pax", "ustar-prefix"]))
-    if longname in ("gnu", "pax"):
+    longname = draw(st.sampled_from([None, None, None, "gnu", "pax", "ustar-prefix", "pax-solaris"]))
+    if longname in ("gnu", "pax", "pax-solaris"):
         name = "/".join(["d" * 30] * draw(st.integers(4, 8))) + "/" + name
     elif longname == "ustar-prefix":
         pre = draw(st.sampled_from([120, 150, 151, 152, 153, 154, 155]))
@@ -77,7 +86,7 @@ def member(draw, idx):
         if kind.startswith("visor") and pre > 151:
             kind = "std-file"  # see ASSUMPTIONS: the visor offset field starts where a prefix longer than 151 bytes would continue
     m = {"kind": kind, "name": name, "longname": longname, "mode": draw(st.sampled_from([0o644, 0o755, 0o600])), "mtime": draw(st.integers(0, 2**31 - 1))}
-    if longname == "pax" and draw(st.booleans()):
+    if longname in ("pax", "pax-solaris") and draw(st.booleans()):
         m["pax_size"] = True  # the extended header also carries a size record (writers that record every attribute)
     if kind in ("visor-file", "std-file"):
         m["size"] = draw(st.one_of(st.integers(1, 600), st.sampled_from([511, 512, 513, 4096, 20000]), st.integers(1, 20000)))
@@ -126,6 +135,7 @@ def archive_spec(draw, tier):
             # gzip-wrapped archives as several concatenated gzip members (cut points in 512-byte blocks); the file name used when
             # an archive is opened by name, whose extension says nothing reliable about the content
             "gzip_cuts": draw(st.lists(st.integers(1, 60), max_size=3, unique=True)),
+            "drop_archive": draw(st.integers(0, 7)) == 0,
             "file_name": draw(st.sampled_from(["archive.v00", "s.v00", "imgdb.tgz", "state.tgz", "s.vgz", "x.gz", "UPPER.VGZ", "noext"]))}
 
 
@@ -151,12 +161,20 @@ def _header(m) -> bytes:
     else:
         ti.type = tarfile.REGTYPE
         ti.size = m.get("size", 0)
-    fmt = {"gnu": tarfile.GNU_FORMAT, "pax": tarfile.PAX_FORMAT, "ustar-prefix": tarfile.USTAR_FORMAT, None: tarfile.USTAR_FORMAT}[m["longname"]]
+    fmt = {"gnu": tarfile.GNU_FORMAT, "pax": tarfile.PAX_FORMAT, "pax-solaris": tarfile.PAX_FORMAT, "ustar-prefix": tarfile.USTAR_FORMAT,
+           None: tarfile.USTAR_FORMAT}[m["longname"]]
     if m["longname"] is None and len(m["name"].encode()) > 100:
         fmt = tarfile.GNU_FORMAT
     if m.get("pax_size") and fmt == tarfile.PAX_FORMAT and ti.type == tarfile.REGTYPE:
         ti.pax_headers = {"size": str(ti.size)}
-    return ti.tobuf(fmt, "utf-8", "surrogateescape")
+    buf = ti.tobuf(fmt, "utf-8", "surrogateescape")
+    if m["longname"] == "pax-solaris" and len(buf) > 512 and buf[156:157] == tarfile.XHDTYPE:
+        # the same extended header with the type flag Solaris tar writes ('X'), which readers treat like 'x'
+        blk = bytearray(buf[:512])
+        blk[156:157] = tarfile.SOLARIS_XHDTYPE
+        _checksum(blk)
+        buf = bytes(blk) + buf[512:]
+    return buf
 
 
 def build(spec):
@@ -262,6 +280,23 @@ def nontrivial(spec) -> bool:
     return (len(vf) >= 2 and spec["data_order"] != vf) or (bool(vf) and std)
 
 
+def read_all_dropping(open_fn):
+    """As read_all, but the caller keeps only the member handles: the archive object is let go before any data is read (a helper
+    that returns `vmtar.open(path).extractfile(name)`)."""
+    import gc
+
+    t = open_fn()
+    handles = [(m.name, m.type, m.size, t.extractfile(m) if m.isreg() else None, m.linkname) for m in t.getmembers()]
+    del t
+    gc.collect(1)
+    try:
+        return [(n, ty, s, f.read() if f is not None else None, ln) for n, ty, s, f, ln in handles]
+    finally:
+        for _n, _ty, _s, f, _ln in handles:
+            if f is not None:
+                f.close()
+
+
 def read_all(t):
     res = []
     for m in t.getmembers():
@@ -307,6 +342,8 @@ def check(spec) -> Outcome:
     by_name = spec.get("via") == "name" and not far and not prefix
     if by_name:
         out.cls("via-name")
+    if spec.get("drop_archive"):
+        out.cls("archive-object-dropped-before-reading")
 
     def run():
         if by_name:
@@ -318,6 +355,11 @@ def check(spec) -> Outcome:
                     f.write(blob)
                 other = vmtar.open(fileobj=io.BytesIO(DECOY), mode="r:")
                 other.getmembers()
+                if spec.get("drop_archive"):
+                    try:
+                        return read_all_dropping(lambda: vmtar.open(p))
+                    finally:
+                        other.close()
                 t = vmtar.open(p)
                 try:
                     return read_all(t)
@@ -350,6 +392,8 @@ def check(spec) -> Outcome:
             fh.seek(prefix)
         else:
             fh = sparse_fh if far else core_track(blob)
+        if spec.get("drop_archive"):
+            return read_all_dropping(lambda: vmtar.open(fileobj=fh))
         t = vmtar.open(fileobj=fh)
         try:
             return read_all(t)
